@@ -363,10 +363,10 @@ STREAMS = {
     'nested-remove': lambda: hsm13.HKnobs(detours=True, max_transitions=4),
 }
 BUDGET = {   # stream -> (quick: chunks, per chunk), (thorough: chunks, per chunk)
-    'flat': ((16, 60), (64, 400)),
-    'flat-remove-selectors': ((4, 15), (8, 50)),
-    'nested': ((12, 40), (48, 250)),
-    'nested-remove': ((4, 15), (8, 50)),
+    'flat': ((16, 200), (64, 600)),
+    'flat-remove-selectors': ((4, 15), (8, 60)),
+    'nested': ((16, 80), (64, 250)),
+    'nested-remove': ((4, 15), (8, 60)),
 }
 
 
@@ -466,7 +466,22 @@ class C13(runner.Check):
         return 1 if fs else 0
 
     def assumptions(self):
-        return []
+        return [
+            'equivalence is `Build.Equiv`: the key order of machine.events (hence the order of get_triggers) and the '
+            'raw per-state ignore_invalid_triggers (None vs the inherited machine value) are not compared; '
+            'machine.ignore_invalid_triggers is not mutated after construction',
+            'shorthand theorems assume a non-empty expanded source list (a wildcard over zero states still creates '
+            'the empty event); the removal theorem excludes an earlier remove_transition on the same event and '
+            'identifies an event without transitions with a non-existent one',
+            'state lists passed to add_ordered_transitions are names (its docstring); with Enum members the rotation '
+            'to the initial state does not happen, which is not counted',
+            'one model per machine; callbacks by reference are bound to it; a condition given as a property receives '
+            'no arguments, the recorder takes the tag of the API call in progress (scripts issue no re-entrant calls)',
+            'representation choices and hierarchical machines are decided by the differential only; nested stream: '
+            'auto_transitions off, no parallel states, no nested Enums, children deferred to joined names only as a '
+            'suffix of their siblings (sibling order kept), argument passing on nested machines is left to C03',
+            'detour transitions point to a state that is never registered and are removed before any event is triggered',
+        ]
 
 
 CHECK = C13()
